@@ -352,7 +352,8 @@ def translate_expression(expr, env: Env) -> TExp:  # noqa: C901
                 return (ta, te)
             elif ta.__name__[:6] == "Qfixed":
                 ip = ta.integer_part((ta, te))  # type: ignore
-                return (Qint.type_for_size(len(ip)), ip)
+                tq = Qint.type_for_size(max(len(ip), 2))  # there is no Qint1
+                return tq.fill((tq, ip))
             else:
                 raise Exception(f"int() accepts only Qfixed and Qint: {ta} given")
 
